@@ -398,9 +398,7 @@ class C02Prop(core.Prop):
                 return c.impl.startswith("0") and i.get("covered_null_not_member") is True and \
                     i.get("covered_falsy_unconverted") in ("RavelDiscreteWrapper", "FlattenWrapper")
             return False
-        return {"C02-E1": e1, "C02-N1": n1, "C02-N2": n2,
-                "C02-E2": p_examples.array_truth_finding, "C02-E3": p_examples.victim_ledger_finding,
-                "C09-A1": p_examples.position_alias_finding}
+        return {"C02-E1": e1, "C02-N1": n1, "C02-N2": n2}
 
     # -- shrinking ------------------------------------------------------------------------------------
     def shrink_candidates(self, d):
